@@ -473,7 +473,7 @@ func c14StateResponses(c *mon.Ctx, r *gen.Rand, sc *simScenario, other *simScena
 	}
 	// whole-response faults
 	msgEv, _ := sc.s.propose(b.clone(), "m.room.message", nil, sc.s.users[0], ref.O("body", ref.S("x")), false)
-	for _, kind := range []string{"non-state-in-state", "non-state-in-auth", "duplicate-state-key", "malformed-element", "empty-response"} {
+	for _, kind := range []string{"non-state-in-state", "non-state-in-auth", "duplicate-state-key", "same-state-event-twice", "state-event-and-its-hash-broken-copy", "malformed-element", "empty-response"} {
 		var resp rawResp
 		for _, p := range state {
 			resp.state = append(resp.state, p.JSON())
@@ -504,6 +504,26 @@ func c14StateResponses(c *mon.Ctx, r *gen.Rand, sc *simScenario, other *simScena
 				continue
 			}
 			resp.state = append(resp.state, dup.JSON())
+		case "same-state-event-twice", "state-event-and-its-hash-broken-copy":
+			// the state list names one (type, state key) twice - with the very same event, or with a copy of it whose
+			// content hash does not match (the redacted form, same event ID)
+			var victim gmsl.PDU
+			for _, p := range gen.Shuffled(r, state) {
+				if p.Type() != "m.room.create" {
+					victim = p
+					break
+				}
+			}
+			if victim == nil {
+				continue
+			}
+			if kind == "same-state-event-twice" {
+				resp.state = append(resp.state, victim.JSON())
+			} else {
+				tv := ref.MustParse(victim.JSON())
+				tv.Get("content").Set("zz_added_after_signing", ref.I(1))
+				resp.state = append(resp.state, gen.Plain().Bytes(tv))
+			}
 		case "malformed-element":
 			resp.state = append(resp.state, []byte(`{"type":"m.room.topic",`), []byte(`null`), []byte(`[]`))
 			resp.auth = append(resp.auth, []byte(`garbage`))
@@ -1112,6 +1132,36 @@ func c14Load(c *mon.Ctx, r *gen.Rand, sc *simScenario) {
 			inputs = append(inputs, in{raw: p.JSON(), pdu: p, expect: classify(p, true)})
 		}
 	}
+	if plEv := b.state[stKey{"m.room.power_levels", ""}]; plEv != nil && s.t.Redaction < 5 && r.Chance(0.5) {
+		// an event and its redacted form that the rules judge differently: a power-levels event by a mid-level user
+		// that raises "invite" above their level (refused); redaction in these versions drops "invite" (allowed)
+		cur := ref.MustParse(plEv.Content())
+		for _, u := range s.users[1:] {
+			lv, ok := cur.Get("users").Get(u).Int()
+			if !ok || lv >= 100 || lv < 25 || s.membership(b, u) != "join" {
+				continue
+			}
+			proposal := cur.Clone()
+			proposal.Set("invite", ref.I(100))
+			bad, accepted := s.propose(b.clone(), "m.room.power_levels", strp(""), u, proposal, true)
+			if bad == nil || accepted {
+				continue
+			}
+			pool[bad.EventID()] = bad
+			tv := ref.MustParse(bad.JSON())
+			tv.Get("content").Set("zz_added_after_signing", ref.I(1))
+			raw := gen.Plain().Bytes(tv)
+			if bp, err := s.impl.NewEventFromUntrustedJSON(raw); err == nil && bp.Redacted() && bp.EventID() == bad.EventID() {
+				pair := []in{{raw: bad.JSON(), pdu: bad, expect: classify(bad, true)}, {raw: raw, pdu: bp, expect: classify(bp, true)}}
+				if r.Chance(0.5) {
+					pair[0], pair[1] = pair[1], pair[0]
+				}
+				inputs = append(inputs, pair...)
+				seen[bad.EventID()] = true
+			}
+			break
+		}
+	}
 	if len(inputs) == 0 {
 		return
 	}
@@ -1120,13 +1170,29 @@ func c14Load(c *mon.Ctx, r *gen.Rand, sc *simScenario) {
 		// order: every input gets a result, and every copy is classified by the first check IT fails
 		for _, i := range inputs {
 			if i.pdu != nil {
-				switch r.Intn(3) {
+				switch r.Intn(5) {
 				case 0:
 					inputs = append(inputs, i)
 				case 1:
 					inputs = append(inputs, in{raw: corruptSig(i.pdu), pdu: i.pdu, expect: classify(i.pdu, false)})
-				default:
+				case 2:
 					inputs = append([]in{{raw: corruptSig(i.pdu), pdu: i.pdu, expect: classify(i.pdu, false)}}, inputs...)
+				default:
+					// a copy whose content hash does not match: it is the event's redacted form (same ID, signatures
+					// valid), and is judged as that - which the rules may see differently from the intact event
+					tv := ref.MustParse(i.pdu.JSON())
+					if cv := tv.Get("content"); cv != nil && cv.K == ref.Obj {
+						cv.Set("zz_added_after_signing", ref.I(1))
+						raw := gen.Plain().Bytes(tv)
+						if bp, err := s.impl.NewEventFromUntrustedJSON(raw); err == nil && bp.Redacted() && bp.EventID() == i.pdu.EventID() {
+							cp := in{raw: raw, pdu: bp, expect: classify(bp, true)}
+							if r.Chance(0.5) {
+								inputs = append(inputs, cp)
+							} else {
+								inputs = append([]in{cp}, inputs...)
+							}
+						}
+					}
 				}
 				break
 			}
